@@ -105,6 +105,8 @@ class Renderer:
         t = r['t']
         if t in ('chr', 'any', 'esc', 'cls', 'grp', 'bol', 'eol'):
             return self.toks(r)
+        if t == 'refd' and self.ncg == '(':
+            raise tla.MachineryError('refd pattern inside a capturing wrapper')
         return [self.open_nc()] + self.toks(r) + [')']
 
     def toks(self, r) -> list:
@@ -140,6 +142,14 @@ class Renderer:
         if t == 'grp':
             self.groups += 1
             return ['('] + self.toks(r['r']) + [')']
+        if t == 'refd':
+            # ( a ) ( b? ) ( ) .. ( ) ( b? ) \digits -- the digits are absolute group numbers: nothing capturing before
+            if self.groups:
+                raise tla.MachineryError('refd pattern rendered after another capturing group')
+            g = r['g']
+            self.groups += g
+            bodies = ['a'] + (['b?'] if g >= 2 else []) + [''] * max(g - 3, 0) + (['b?'] if g >= 3 else [])
+            return [x for b in bodies for x in ('(', b, ')') if x] + ['\\' + ''.join(map(str, r['digs']))]
         if t == 'dup':
             self.groups += 1
             k = self.groups
@@ -166,11 +176,13 @@ def atom_tag(a) -> str:
         return 'esc:' + a['e'] + (':' + a['cat'] if a['cat'] else '')
     if t == 'cls':
         return 'cls:' + render_class(a)
+    if t == 'refd':
+        return 'refd:%d:%s' % (a['g'], ''.join(map(str, a['digs'])))
     return t
 
 
 def atom_tags(r) -> list:
-    return sorted({atom_tag(x) for x in walk(r) if x['t'] in ('chr', 'any', 'esc', 'cls', 'bol', 'eol')})
+    return sorted({atom_tag(x) for x in walk(r) if x['t'] in ('chr', 'any', 'esc', 'cls', 'bol', 'eol', 'refd')})
 
 
 def node_types(r) -> set:
@@ -609,7 +621,7 @@ def ast_worker(job):
             if o_full != full:
                 report(r, 'xpath', 'full', p, full, o_full)
         # --- XSD mode: anchors=False, no back-references, no lazy quantifiers: implicit full match
-        if not (types & {'bol', 'eol', 'dup', 'starL', 'plusL', 'optL', 'repL'}):
+        if not (types & {'bol', 'eol', 'dup', 'refd', 'starL', 'plusL', 'optL', 'repL'}):
             p = render(r, '(', sep)
             c = compile_pattern(p, flag, ver, True)
             if isinstance(c, tuple):
@@ -691,6 +703,11 @@ AST_CONFIGS = {
         ('xsd11', '', '1.1', dict(AtomNames={"i", "I", "c", "C", "AS", "a", "w", "HY"}, OperandNames={"a", "AS"}, OperandDepth=0,
                                   Unaries={"star", "rep2", "grp"}, Unaries2=set(), Binaries={"cat", "alt"}, MaxDepth=1,
                                   SubjChars={3, 4, 7, 9}, MaxLen=2), 8, True),
+        # back-references written as a run of digits, after 1, 2 and 10 groups: \\15 \\155 \\1555 \\255 \\1055 ..
+        ('backref', '', '1.0', dict(AtomNames={"a", "r1_15", "r1_155", "r1_1555", "r1_125", "r2_25", "r2_255", "r2_155",
+                                               "r10_105", "r10_1055", "r10_155", "r10_255", "r10_10"},
+                                    OperandNames={"a"}, OperandDepth=0, Unaries=set(), Unaries2=set(),
+                                    Binaries={"cat", "alt"}, MaxDepth=1, SubjChars={4, 7, 8}, MaxLen=5), 2, False),
     ],
 }
 AST_CONFIGS['thorough'] = AST_CONFIGS['quick'][2:] + [
@@ -703,6 +720,9 @@ AST_CONFIGS['thorough'] = AST_CONFIGS['quick'][2:] + [
     ('deep-i', 'i', '1.0', dict(AtomNames={"a", "A", "c_nA", "c_ab"}, OperandNames={"a", "A", "c_nA", "c_ab"},
                                 OperandDepth=1, Unaries={"star", "opt", "dup"}, Unaries2={"star", "opt", "dup"},
                                 Binaries={"cat", "alt"}, MaxDepth=2, SubjChars={5, 7, 8}, MaxLen=3), 64, False),
+    ('backref12', 'i', '1.0', dict(AtomNames={"a", "r12_125", "r12_1255", "r12_155", "r12_1155", "r2_255", "r1_155"},
+                                   OperandNames={"a"}, OperandDepth=0, Unaries=set(), Unaries2=set(),
+                                   Binaries={"cat", "alt"}, MaxDepth=1, SubjChars={4, 5, 7, 8}, MaxLen=5), 2, False),
     ('deep-m', 'm', '1.0', dict(AtomNames={"a", "NL", "bol", "eol"}, OperandNames={"a", "NL", "bol", "eol"},
                                 OperandDepth=1, Unaries={"star", "opt", "plus"}, Unaries2={"star", "opt", "plus"},
                                 Binaries={"cat", "alt"}, MaxDepth=2, SubjChars={1, 7}, MaxLen=4), 64, False),
@@ -893,6 +913,167 @@ def run_fns(chk: core.Check, totals: dict, done: dict) -> None:
         chk.add('transitions', len(g.edges))
         chk.add('traces_validated_against_impl', len(g.edges))
         print(f'  RegexFns/{name}: states={len(g.states)} edges={len(g.edges)} tlc={r.wall_s:.1f}s', flush=True)
+
+
+# ------------------------------------------------------------------------------------------
+# RegexFns under SEVERAL flags: one parsed call site evaluated many times with varying input / flags / pattern.
+# The same RegexFns model is run once per flag; the graphs are joined on (pattern, input), so every expected value
+# still comes from TLC.  Routes: a predicate  /root/e[matches(., $p, @flags)]  over a document holding every
+# (input, flags) pair, `for` batches over the four functions, and one token parsed once and evaluated with a new
+# variable binding per item.  The mutual-consistency laws are checked on the batched results.
+
+BATCH_FLAGS = ('', 'i', 's', 'm')
+BATCH_CONFIGS = {
+    'quick': dict(PatAtoms={"a", "A", "any", "NL", "bol", "eol"}, PatUnaries={"plus", "opt"}, PatBinaries={"cat", "alt"},
+                  PatDepth=1, SubjChars={1, 5, 7}, MaxLen=3),
+    'thorough': dict(PatAtoms={"a", "A", "b", "any", "NL", "bol", "eol", "c_nA"}, PatUnaries={"plus", "opt", "grp"},
+                     PatBinaries={"cat", "alt"}, PatDepth=1, SubjChars={1, 5, 7, 8}, MaxLen=3),
+}
+FOR_EXPR = {
+    'matches': 'for $i in 1 to count($ff) return matches($ss[$i], $pp[$i], $ff[$i])',
+    'tokenize': "for $i in 1 to count($ff) return string-join(tokenize($ss[$i], $pp[$i], $ff[$i]), '|')",
+    'replace': "for $i in 1 to count($ff) return replace($ss[$i], $pp[$i], 'X', $ff[$i])",
+    'analyze-string': "for $i in 1 to count($ff) return string-join(for $e in analyze-string($ss[$i], $pp[$i], $ff[$i])/* "
+                      "return concat(substring(local-name($e), 1, 1), ':', string($e)), '|')",
+}
+
+
+def batch_worker(job):
+    import xml.etree.ElementTree as ET
+    import elementpath
+    from elementpath import XPathContext
+    parsers, _ = _api()
+    bag = Bag()
+    t_cpu = time.process_time()
+    once = {v: parsers[v]().parse('matches($s, $p, $f)') for v in ('2.0', '3.1')}     # ONE token per parser for the whole job
+
+    def bad(route, fn, law, flag, prev, case, expected, observed, what):
+        out = ':'.join(map(str, observed)) if isinstance(observed, tuple) and observed and observed[0] in ('err', 'escaped') else 'value'
+        bag.fail(dict(kind='batch', route=route, fn=fn, law=law, flag=flag, previous_flag=prev, outcome=out),
+                 dict(kind='batch', route=route, fn=fn, law=law, **case), expected, observed, what)
+
+    for r, rows in job:
+        p = render(r, '(?:')
+        items = [(s, f, rec[f]) for s, rec in rows for f in BATCH_FLAGS]          # flags vary fastest: same pattern, same input
+        texts = [subj(s) for s, f, _ in items]
+        flags = [f for s, f, _ in items]
+        bag.add('batched_patterns')
+        # ---- route 1: predicate over a document, flags taken from an attribute of each item
+        root = ET.Element('root')
+        for t, f in zip(texts, flags):
+            e = ET.SubElement(root, 'e', {'flags': f})
+            e.text = t
+        index = {id(e): k for k, e in enumerate(root)}
+        for version in ('2.0', '3.1'):
+            res = outcome(lambda: elementpath.select(root, '/root/e[matches(., $p, @flags)]', variables={'p': p},
+                                                     parser=parsers[version]))
+            bag.add('evaluations', len(items))
+            want = [k for k, (s, f, rec) in enumerate(items) if rec[1]]
+            got = res if isinstance(res, tuple) else sorted(index.get(id(e), -1) for e in res)
+            if got != want:
+                k = next((k for k in range(len(items)) if (k in want) != (not isinstance(got, tuple) and k in got)), 0)
+                bad('predicate', 'matches', 'membership', flags[k], flags[k - 1] if k else None,
+                    dict(pattern=p, subjects=texts, flags=flags, parser=version),
+                    want, got, f"/root/e[matches(., {p!r}, @flags)] over {len(items)} items (XPath {version}): item {k + 1} "
+                               f"({texts[k]!r}, flags {flags[k]!r}) should {'be selected' if k in want else 'not be selected'}")
+        # ---- route 2: one token parsed once, a new variable binding per item
+        for version, tok in once.items():
+            got = []
+            for t, f in zip(texts, flags):
+                got.append(outcome(lambda: tok.evaluate(XPathContext(root, variables={'s': t, 'p': p, 'f': f}))))
+            bag.add('evaluations', len(items))
+            want = [rec[1] for s, f, rec in items]
+            if got != want:
+                k = next(k for k in range(len(items)) if got[k] != want[k])
+                bad('parse_once', 'matches', 'membership', flags[k], flags[k - 1] if k else None,
+                    dict(pattern=p, subjects=texts, flags=flags, parser=version), want, got,
+                    f"token of 'matches($s, $p, $f)' parsed once (XPath {version}), binding {k + 1}: matches({texts[k]!r}, {p!r}, "
+                    f"{flags[k]!r}) should be {want[k]}")
+        # ---- route 3: `for` batches over the four functions + the consistency laws on the batched results
+        ok_items = [(t, f, rec) for t, (s, f, rec) in zip(texts, items) if not rec[0]]      # not nullable
+        if not ok_items:
+            continue
+        v = dict(ss=[t for t, f, rec in ok_items], pp=[p] * len(ok_items), ff=[f for t, f, rec in ok_items])
+        out = {}
+        for fn, expr in FOR_EXPR.items():
+            res = xpath_call(expr, '3.1', '1.0', **v)
+            bag.add('evaluations', len(ok_items))
+            if isinstance(res, tuple) and res and res[0] in ('err', 'escaped') or len(as_list(res)) != len(ok_items):
+                bad('for', fn, 'outcome', None, None, dict(pattern=p, subjects=v['ss'], flags=v['ff'], parser='3.1'),
+                    f'{len(ok_items)} results', res, f"{expr} with $pp = {p!r}: failed")
+                out = None
+                break
+            out[fn] = as_list(res)
+        if out is None:
+            continue
+        for k, (t, f, rec) in enumerate(ok_items):
+            nullable, found, adm = rec
+            prev = v['ff'][k - 1] if k else None
+            case = dict(pattern=p, subjects=v['ss'], flags=v['ff'], parser='3.1', item=k)
+            m, tk, rp, az = out['matches'][k], out['tokenize'][k], out['replace'][k], out['analyze-string'][k]
+            if m is not found:
+                bad('for', 'matches', 'membership', f, prev, case, found, m,
+                    f"{FOR_EXPR['matches']}: item {k + 1} matches({t!r}, {p!r}, {f!r}) should be {found}")
+            pieces = [x.split(':', 1) for x in az.split('|')] if az else []
+            pos, parts = 0, []
+            for kind, x in pieces:
+                parts.append(('m' if kind == 'm' else 'n', pos, pos + len(x)))
+                pos += len(x)
+            entry = next((a for a in adm if a['parts'] == tuple(parts)), None)
+            if entry is None or ''.join(x for _, x in pieces) != t:
+                bad('for', 'analyze-string', 'admissible', f, prev, case, sorted(a['parts'] for a in adm), parts,
+                    f"analyze-string({t!r}, {p!r}, {f!r}) in a batch = {az!r}: not an admissible partition")
+                continue
+            want_tok = '|'.join(subj(x) for x in entry['tokens'])
+            if tk != want_tok:
+                bad('for', 'tokenize', 'tokens', f, prev, case, want_tok, tk,
+                    f"tokenize({t!r}, {p!r}, {f!r}) in a batch = {tk!r}: not the non-match parts of {az!r}")
+            if rp != 'X'.join(subj(x) for x in entry['tokens']):
+                bad('for', 'replace', 'join', f, prev, case, 'X'.join(subj(x) for x in entry['tokens']), rp,
+                    f"replace({t!r}, {p!r}, 'X', {f!r}) in a batch = {rp!r}: not the tokens of {az!r} joined by X")
+            # mutual consistency of the implementation's own batched answers
+            has_match = any(kind == 'm' for kind, _ in pieces)
+            if not (m is has_match and (rp != t) is has_match):
+                bad('for', 'matches', 'consistency', f, prev, case, dict(analyze_string=az), dict(matches=m, replace=rp),
+                    f"item {k + 1}: matches({t!r}, {p!r}, {f!r}) = {m} but analyze-string = {az!r}, replace = {rp!r}")
+        if len(bag.samples) < 1 and len({rec[1] for s, f, rec in items[:4]}) > 1:
+            bag.samples.append(dict(pattern=p, subject=texts[0], flags=list(BATCH_FLAGS), matches=[rec[1] for s, f, rec in items[:4]]))
+    bag.add('cpu_s', time.process_time() - t_cpu)
+    return bag.result()
+
+
+def jobs_batch(chk: core.Check) -> list:
+    return [(f'RegexFns/flags-{f or "none"}', 'RegexFns', dict(XsdVersion='1.0', Flag=f, **BATCH_CONFIGS[chk.tier]), ['Laws'],
+             os.path.join(chk.scratch, f'batch-{f or "none"}')) for f in BATCH_FLAGS]
+
+
+def run_batch(chk: core.Check, totals: dict, done: dict) -> None:
+    table: dict = {}
+    for f in BATCH_FLAGS:
+        r, dot = done[f'RegexFns/flags-{f or "none"}']
+        chk.model(f'RegexFns/flags-{f or "none"}', r)
+        g = tla.load_dot(dot)
+        os.remove(dot)
+        for st in g.states.values():
+            row = table.setdefault(render(st['r']), [st['r'], {}])[1]
+            row.setdefault(st['s'], {})[f] = (st['nullable'], st['found'], tuple(st['adm']))
+        chk.add('transitions', len(g.edges))
+    groups = []
+    differ = 0
+    for key in sorted(table):
+        r, rows = table[key]
+        if any(len(rec) != len(BATCH_FLAGS) for rec in rows.values()):
+            raise tla.MachineryError(f'RegexFns/flags: the graphs of the flag runs do not have the same (pattern, input) pairs at {key}')
+        differ += sum(1 for rec in rows.values() if len({x[1] for x in rec.values()}) > 1)
+        groups.append((r, sorted(rows.items())))
+    if not differ:
+        raise tla.MachineryError('RegexFns/flags: vacuous, no (pattern, input) pair whose answer depends on the flags')
+    totals['batch_pairs_depending_on_flags'] = differ
+    submit(batch_worker, [groups[k::32] for k in range(32) if groups[k::32]], lambda res: collect(chk, res, totals, 'batch'))
+    chk.add('traces_validated_against_impl', sum(len(rows) for _, rows in groups) * len(BATCH_FLAGS))
+    chk.add('distinct_nontrivial', differ)
+    print(f'  RegexFns/flags: patterns={len(groups)} pairs={sum(len(rows) for _, rows in groups)} x {len(BATCH_FLAGS)} flags, '
+          f'{differ} pairs depend on the flags', flush=True)
 
 
 # ------------------------------------------------------------------------------------------
@@ -1185,6 +1366,34 @@ def replay_case(case: dict):
             return None, 're.error'
     if kind == 'q':
         return None, fn_matches(case['subject'], case['pattern'], 'q', '3.1')
+    if kind == 'batch':
+        import xml.etree.ElementTree as ET
+        import elementpath
+        from elementpath import XPathContext
+        parsers, _ = _api()
+        p, texts, flags, v, exp = case['pattern'], case['subjects'], case['flags'], case['parser'], case.get('_expected')
+        if case['route'] == 'predicate':
+            root = ET.Element('root')
+            for t, f in zip(texts, flags):
+                ET.SubElement(root, 'e', {'flags': f}).text = t
+            index = {id(e): k for k, e in enumerate(root)}
+            res = outcome(lambda: elementpath.select(root, '/root/e[matches(., $p, @flags)]', variables={'p': p}, parser=parsers[v]))
+            got = res if isinstance(res, tuple) else sorted(index.get(id(e), -1) for e in res)
+            return got != exp, got
+        if case['route'] == 'parse_once':
+            tok = parsers[v]().parse('matches($s, $p, $f)')
+            root = ET.Element('root')
+            got = [outcome(lambda: tok.evaluate(XPathContext(root, variables={'s': t, 'p': p, 'f': f}))) for t, f in zip(texts, flags)]
+            return got != exp, got
+        var = dict(ss=texts, pp=[p] * len(texts), ff=flags)
+        out = {fn: as_list(xpath_call(expr, v, '1.0', **var)) for fn, expr in FOR_EXPR.items()}
+        k = case.get('item', 0)
+        got = {fn: (x[k] if len(x) > k else x) for fn, x in out.items()}
+        law, fn = case['law'], case['fn']
+        if law in ('membership', 'tokens', 'join'):
+            return got[fn] != exp, got[fn]
+        has_match = isinstance(got['analyze-string'], str) and any(x.startswith('m:') for x in got['analyze-string'].split('|'))
+        return not (got['matches'] is has_match and (got['replace'] != texts[k]) is has_match), got
     if kind == 'replace':
         r = xpath_call('replace($s,$p,$r)', case['parser'], '1.0', s=case['subject'], p=case['pattern'], r=case['replacement'])
         r = r[0] if isinstance(r, list) and len(r) == 1 else r
@@ -1259,8 +1468,9 @@ def run(chk: core.Check) -> None:
         'invalid patterns: translate_pattern must raise RegexError, fn:matches must raise FORX0002',
     ]
     totals: dict = {}
-    parts = os.environ.get('C12_PARTS', 'class,ast,fns,replace,syntax').split(',')      # development aid only
+    parts = os.environ.get('C12_PARTS', 'class,ast,fns,batch,replace,syntax').split(',')      # development aid only
     plan = [('class', jobs_classes, run_classes), ('ast', jobs_asts, run_asts), ('fns', jobs_fns, run_fns),
+            ('batch', jobs_batch, run_batch),
             ('replace', jobs_replace, run_replace), ('syntax', jobs_syntax, run_syntax)]
     plan = [p for p in plan if p[0] in parts]
     # all TLC models first (TLC_PAR JVMs at a time), then the replays
